@@ -215,9 +215,21 @@ func (r *Report) Write() {
 		os.Stdout.Write(js)
 		return
 	}
-	if err := os.WriteFile(F.Out, js, 0o644); err != nil {
+	// atomically: the driver may read the file as soon as it exists
+	if err := os.WriteFile(F.Out+".tmp", js, 0o644); err != nil {
 		Fatal("write report: %v", err)
 	}
+	if err := os.Rename(F.Out+".tmp", F.Out); err != nil {
+		Fatal("write report: %v", err)
+	}
+	// The report is the worker's whole verdict. What follows is cleanup of real lindb objects (deferred Close of
+	// engines, worker pools ...); under a changed tree that can wait for ever on a goroutine that spins or is parked
+	// (a pool worker inside a decoder loop), and the driver would call the worker stuck and drop its report.
+	go func() {
+		time.Sleep(20 * time.Second)
+		fmt.Fprintln(os.Stderr, "cleanup after the report did not finish within 20s; exiting")
+		os.Exit(0)
+	}()
 }
 
 // Fatal reports a harness error (exit 3): broken harness, never a property violation.
